@@ -99,7 +99,12 @@ type ev struct {
 	val  uint64
 }
 
-type glog struct{ evs []ev }
+// glog is written by one goroutine; the mutex only makes it readable while that
+// goroutine is parked forever (stuck case).
+type glog struct {
+	mu  sync.Mutex
+	evs []ev
+}
 
 type countGate struct {
 	mu       sync.Mutex
@@ -214,7 +219,9 @@ func (h *harness) newLog() *glog {
 }
 
 func (h *harness) add(l *glog, kind uint8, sub, ch int32, val uint64, n int32) {
+	l.mu.Lock()
 	l.evs = append(l.evs, ev{seq: h.stamp(), kind: kind, sub: sub, ch: ch, val: val, n: n})
+	l.mu.Unlock()
 }
 
 func (h *harness) newChan(spec *subSpec, nsubs int32) *chanState {
@@ -463,7 +470,7 @@ func (h *harness) closer() {
 
 // play runs the script against a fresh feed. It returns the recorded history,
 // or dump != "" if the goroutines stopped making progress.
-func play(sc *script, stall time.Duration) (hist *history, dump string) {
+func play(sc *script, stall time.Duration) (hist *history, st *stuck) {
 	h := &harness{sc: sc, allSent: make(chan struct{}), stop: make(chan struct{})}
 	prev := runtime.GOMAXPROCS(sc.Procs)
 	defer runtime.GOMAXPROCS(prev)
@@ -532,6 +539,7 @@ func play(sc *script, stall time.Duration) (hist *history, dump string) {
 
 	// progress watchdog: fires only if the stamp counter stands still
 	last, lastChange := atomic.LoadUint64(&h.seq), time.Now()
+	rearmed := 0
 	tick := time.NewTicker(100 * time.Millisecond)
 	defer tick.Stop()
 wait:
@@ -546,31 +554,89 @@ wait:
 			} else if time.Since(lastChange) > stall {
 				buf := make([]byte, 4<<20)
 				buf = buf[:runtime.Stack(buf, true)]
-				return nil, string(buf)
+				st := &stuck{dump: string(buf)}
+				st.deadlock, st.where, st.workers, st.notParked = analyseDump(st.dump)
+				if st.deadlock {
+					// every goroutine of the case is parked: the state is frozen and
+					// can be read (sends in flight have ret = never)
+					return h.history(true), st
+				}
+				// something can still run (a loaded machine): keep waiting, give up
+				// after a while
+				if rearmed++; rearmed <= 12 {
+					lastChange = time.Now()
+					continue
+				}
+				return nil, st
 			}
 		}
 	}
-	return h.history(), ""
+	return h.history(false), nil
+}
+
+// stuck describes a case whose stamp counter stood still.
+type stuck struct {
+	dump      string
+	deadlock  bool
+	where     string
+	workers   int
+	notParked []string
 }
 
 const never = math.MaxUint64
 
-func (h *harness) history() *history {
+func (h *harness) history(frozen bool) *history {
 	hist := &history{}
+	h.mu.Lock()
+	defer h.mu.Unlock()
+	nsubs := atomic.LoadInt32(&h.nsubs)
+	logs := make([][]ev, len(h.logs))
+	for i, l := range h.logs {
+		l.mu.Lock()
+		logs[i] = append([]ev{}, l.evs...)
+		l.mu.Unlock()
+	}
+	if frozen {
+		// Values sitting in channel buffers were delivered but not taken out by
+		// the (parked) receivers. Take what is there now; keep only values whose
+		// send.call is part of the snapshot above, since taking values out may let
+		// parked senders run again.
+		known := map[uint64]bool{}
+		for _, evs := range logs {
+			for _, e := range evs {
+				if e.kind == evSendCall {
+					known[e.val] = true
+				}
+			}
+		}
+		var extra []ev
+		for _, cs := range h.chans {
+			for k := len(cs.ch); k > 0; k-- {
+				select {
+				case v := <-cs.ch:
+					if known[v] {
+						extra = append(extra, ev{seq: h.stamp(), kind: evRecv, sub: -1, ch: int32(cs.idx), val: v})
+					}
+				default:
+				}
+			}
+		}
+		logs = append(logs, extra)
+	}
 	hist.chans = make([]hChan, len(h.chans))
 	for i, cs := range h.chans {
 		hist.chans[i] = hChan{name: cs.spec.Name, buf: cs.spec.Buf}
 	}
-	hist.subs = make([]hSub, h.nsubs)
+	hist.subs = make([]hSub, nsubs)
 	for i := range hist.subs {
-		hist.subs[i] = hSub{ch: -1, unsubCall: never, unsubRet: never}
+		hist.subs[i] = hSub{ch: -1, subCall: never, subRet: never, unsubCall: never, unsubRet: never}
 	}
 	tracked := map[int32]bool{}
 	var closeCall, closeRet uint64 = never, never
 	sends := map[uint64]*hSend{}
 	var order []uint64
-	for _, l := range h.logs {
-		for _, e := range l.evs {
+	for _, evs := range logs {
+		for _, e := range evs {
 			switch e.kind {
 			case evSubCall:
 				hist.subs[e.sub].ch = int(e.ch)
@@ -587,6 +653,8 @@ func (h *harness) history() *history {
 				}
 			case evTracked:
 				tracked[e.sub] = true
+			case evTrackNil:
+				hist.trackNil++
 			case evCloseCall:
 				closeCall = e.seq
 			case evCloseRet:
@@ -599,8 +667,8 @@ func (h *harness) history() *history {
 			}
 		}
 	}
-	for _, l := range h.logs {
-		for _, e := range l.evs {
+	for _, evs := range logs {
+		for _, e := range evs {
 			if e.kind == evSendRet {
 				sends[e.val].ret = e.seq
 				sends[e.val].n = int(e.n)
@@ -612,6 +680,7 @@ func (h *harness) history() *history {
 		s := &hist.subs[k]
 		if closeCall < s.unsubCall {
 			s.unsubCall = closeCall
+			hist.cancelledByClose++
 		}
 		if closeRet < s.unsubRet {
 			s.unsubRet = closeRet
@@ -643,8 +712,6 @@ var parkedStates = map[string]bool{
 	"chan receive (nil chan)": true, "chan send (nil chan)": true,
 }
 
-var eventFuncs = []string{"(*Feed).Send", "(*Feed).remove", "(*Feed).Subscribe", "(*SubscriptionScope).Close", "(*SubscriptionScope).Track", "(*scopeSub).Unsubscribe", "(*feedSub).Unsubscribe"}
-
 func analyseDump(dump string) (deadlock bool, where string, workers int, notParked []string) {
 	in := map[string]bool{}
 	for _, blk := range strings.Split(dump, "\n\n") {
@@ -664,9 +731,16 @@ func analyseDump(dump string) (deadlock bool, where string, workers int, notPark
 			notParked = append(notParked, m[1])
 			continue
 		}
-		for _, f := range eventFuncs {
-			if strings.Contains(blk, "aqua/event."+f) {
+		// innermost event-package function only, so that the signature names
+		// where goroutines are stuck and not through which wrapper they came
+		for _, ln := range strings.Split(blk, "\n") {
+			if i := strings.Index(ln, "aqua/event."); i >= 0 {
+				f := ln[i+len("aqua/event."):]
+				if j := strings.LastIndex(f, "("); j > 0 {
+					f = f[:j]
+				}
 				in[strings.NewReplacer("(*", "", ")", "").Replace(f)] = true
+				break
 			}
 		}
 	}
